@@ -121,18 +121,39 @@ func c19(c *core.Ctx, r *core.Report) {
 	// ---- R19.recover
 	if dr := c.Func("analysis/maypanic", "doesRecover"); dr != nil {
 		r.Analysed("analysis/maypanic.doesRecover")
-		// a return true must be control-dependent on: type assertion to *ssa.Builtin succeeded and Name()=="recover"
-		ok := false
+		// EVERY way of returning true must be control-dependent on: type assertion to *ssa.Builtin succeeded and
+		// Name()=="recover" (recover() only stops a panic when the deferred function calls it directly: returning true
+		// for a function that merely calls another function that recovers hides the goroutine)
+		var points []*ssa.BasicBlock
+		isTrue := func(v ssa.Value) bool {
+			k, isK := v.(*ssa.Const)
+			return isK && k.Value != nil && k.Value.ExactString() == "true"
+		}
 		for _, b := range dr.Blocks {
 			ret, isRet := b.Instrs[len(b.Instrs)-1].(*ssa.Return)
 			if !isRet || len(ret.Results) != 1 {
 				continue
 			}
-			k, isK := ret.Results[0].(*ssa.Const)
-			if !isK || k.Value == nil || k.Value.ExactString() != "true" {
+			if isTrue(ret.Results[0]) {
+				points = append(points, b)
+			} else if phi, isPhi := ret.Results[0].(*ssa.Phi); isPhi {
+				for i, e := range phi.Edges {
+					if isTrue(e) {
+						points = append(points, phi.Block().Preds[i])
+					} else if _, isC := e.(*ssa.Const); !isC {
+						points = append(points, nil) // a computed result: not decidable as guarded
+					}
+				}
+			} else if _, isC := ret.Results[0].(*ssa.Const); !isC {
+				points = append(points, nil)
+			}
+		}
+		ok := len(points) > 0
+		for _, b := range points {
+			if b == nil {
+				ok = false
 				continue
 			}
-			// walk dominators for the Builtin assertion and the "recover" comparison
 			hasB, hasName := false, false
 			for d := b; d != nil; d = d.Idom() {
 				for _, p := range d.Preds {
@@ -147,12 +168,12 @@ func c19(c *core.Ctx, r *core.Report) {
 					}
 				}
 			}
-			if hasB && hasName {
-				ok = true
+			if !(hasB && hasName) {
+				ok = false
 			}
 		}
 		r.Check(ok, "R19.recover", "analysis/maypanic.doesRecover|builtin-by-type", c.Pos(dr.Pos()),
-			"`true` is returned only for a call whose value is an *ssa.Builtin named recover", "doesRecover does not identify the recover builtin by type and name: a user function named recover (or no call at all) may count as recovering and hide a goroutine")
+			"`true` is returned only for a call whose value is an *ssa.Builtin named recover", "doesRecover can return true on a path that is not guarded by `the callee is an *ssa.Builtin named recover`: a user function named recover, or a function that only calls another function that recovers (recover() has no effect there), counts as recovering and hides a goroutine that can crash the program")
 	} else {
 		r.Fail("infra.anchor-unresolved", "R19.recover|analysis/maypanic.doesRecover", "", "not found")
 	}
